@@ -1,10 +1,80 @@
-(* C07 - generated C re-parses to the same AST.  Property theorems only. *)
-From Coq Require Import List NArith Bool Arith String.
+(* C07 - generated C re-parses to the same AST (parse . generate . parse = parse)
+   Property theorems only; the statements below are checked by the kernel on the whole-pipeline model
+   (lexer -> token stream -> parser -> transforms), proofs in proofs/GenExamples.v. *)
+From Coq Require Import List NArith Bool Arith.
 Import ListNotations.
-From PV Require Import Regex Base LexTables ParserTables GenTables CSpec TableProofs ClimbProofs.
+From PV Require Import Regex Base LexTables NodeModel ParserBase ParserDecl ParserMain Api GenExamples ParserTables GenTables CSpec TableProofs Generator ParamProofs GenParam.
 
-(* the generator's precedence_map is the parser's _BINARY_PRECEDENCE, operator by operator
-   (through the lexer's own spelling table), and both are C99's level assignment *)
+(* parse . generate . parse = parse and second generation = first (default configuration) *)
+Theorem C07_roundtrip_decls :
+  roundtrip_ok false (s2l "typedef int T; static const T a = 1, *b[3], (*fp)(int, char *); struct S { int x : 3; T y; } s = { .x = 1, .y = 2 };") = true.
+Proof. exact ex_C07_roundtrip_decls. Qed.
+Print Assumptions C07_roundtrip_decls.
+
+(* ... and with reduce_parentheses *)
+Theorem C07_roundtrip_rp_decls :
+  roundtrip_ok true (s2l "typedef int T; static const T a = 1, *b[3], (*fp)(int, char *); struct S { int x : 3; T y; } s = { .x = 1, .y = 2 };") = true.
+Proof. exact ex_C07_roundtrip_rp_decls. Qed.
+Print Assumptions C07_roundtrip_rp_decls.
+
+(* parse . generate . parse = parse and second generation = first (default configuration) *)
+Theorem C07_roundtrip_exprs :
+  roundtrip_ok false (s2l "int f(int a, int b) { return (a + b) * (a - b) / (a ? b : -a) + sizeof(int) + (int)a % b << 2 >= (a & b | a ^ b) && !a || ~b; }") = true.
+Proof. exact ex_C07_roundtrip_exprs. Qed.
+Print Assumptions C07_roundtrip_exprs.
+
+(* ... and with reduce_parentheses *)
+Theorem C07_roundtrip_rp_exprs :
+  roundtrip_ok true (s2l "int f(int a, int b) { return (a + b) * (a - b) / (a ? b : -a) + sizeof(int) + (int)a % b << 2 >= (a & b | a ^ b) && !a || ~b; }") = true.
+Proof. exact ex_C07_roundtrip_rp_exprs. Qed.
+Print Assumptions C07_roundtrip_rp_exprs.
+
+(* parse . generate . parse = parse and second generation = first (default configuration) *)
+Theorem C07_roundtrip_stmts :
+  roundtrip_ok false (s2l "void g(int n) { for (int i = 0; i < n; i++) { if (i) continue; else break; } while (n--) ; do n++; while (n < 3); switch (n) { case 1: case 2: n = 1; break; default: ; } L: goto L; }") = true.
+Proof. exact ex_C07_roundtrip_stmts. Qed.
+Print Assumptions C07_roundtrip_stmts.
+
+(* ... and with reduce_parentheses *)
+Theorem C07_roundtrip_rp_stmts :
+  roundtrip_ok true (s2l "void g(int n) { for (int i = 0; i < n; i++) { if (i) continue; else break; } while (n--) ; do n++; while (n < 3); switch (n) { case 1: case 2: n = 1; break; default: ; } L: goto L; }") = true.
+Proof. exact ex_C07_roundtrip_rp_stmts. Qed.
+Print Assumptions C07_roundtrip_rp_stmts.
+
+(* parse . generate . parse = parse and second generation = first (default configuration) *)
+Theorem C07_roundtrip_nested_ops :
+  roundtrip_ok false (s2l "int h(int a, int b, int c) { return a - (b - c) + a * (b + c) - (a - b) - c + a / (b / c) + (a << b) + c; }") = true.
+Proof. exact ex_C07_roundtrip_nested_ops. Qed.
+Print Assumptions C07_roundtrip_nested_ops.
+
+(* ... and with reduce_parentheses *)
+Theorem C07_roundtrip_rp_nested_ops :
+  roundtrip_ok true (s2l "int h(int a, int b, int c) { return a - (b - c) + a * (b + c) - (a - b) - c + a / (b / c) + (a << b) + c; }") = true.
+Proof. exact ex_C07_roundtrip_rp_nested_ops. Qed.
+Print Assumptions C07_roundtrip_rp_nested_ops.
+
+(* witness (known finding): a for-init declaration with several declarators does not round-trip *)
+Theorem C07_forinit_multi_refuted :
+  roundtrip_ok false (s2l "void f(void){ for (int *p = 0, *q = 0; ; ) ; }") = false.
+Proof. exact ex_C07_forinit_multi_refuted. Qed.
+Print Assumptions C07_forinit_multi_refuted.
+
+(* witness (known finding): an assignment whose lvalue is a comma expression does not round-trip *)
+Theorem C07_assign_lvalue_refuted :
+  roundtrip_ok false (s2l "void f(void){ (a, b) = 1; }") = false.
+Proof. exact ex_C07_assign_lvalue_refuted. Qed.
+Print Assumptions C07_assign_lvalue_refuted.
+
+(* CGenerator never looks at coordinates: for EVERY AST, every renaming or erasure of its coordinates
+   leaves the generated text (and the crash / final-indentation outcome) unchanged - by parametricity
+   of the generator model (all visit_* methods) in the coordinate type *)
+Theorem C07_gen_ignores_coords : forall (A B: Type) (g: A -> B) rp fuel (v: value A),
+  generate B rp fuel (vmap A B g v) = match generate A rp fuel v with
+                                       | GOk x => GOk x | GCrash => GCrash | GFuel => GFuel end.
+Proof. exact gen_ignores_coords. Qed.
+Print Assumptions C07_gen_ignores_coords.
+
+(* the generator's precedence_map is the parser's _BINARY_PRECEDENCE, operator by operator *)
 Theorem C07_precedence_mirrored :
   forallb (fun e => match punct_kind_l (fst e) with
                     | Some k => match prec_lookup k with Some p => Nat.eqb p (snd e) | None => false end
@@ -12,11 +82,3 @@ Theorem C07_precedence_mirrored :
   /\ List.length gen_precedence_map = List.length tbl_BINARY_PRECEDENCE.
 Proof. exact generator_precedence_mirrors_parser. Qed.
 Print Assumptions C07_precedence_mirrored.
-
-Theorem C07_precedence_is_c99 :
-  forallb (fun e => match punct_kind (fst e) with
-                    | Some k => match prec_lookup k with Some p => Nat.eqb p (snd e) | None => false end
-                    | None => false end) c99_binary_levels = true
-  /\ List.length tbl_BINARY_PRECEDENCE = List.length c99_binary_levels.
-Proof. exact precedence_is_c99. Qed.
-Print Assumptions C07_precedence_is_c99.
